@@ -1,6 +1,47 @@
-"""Loop ties / function-body ties of cnvlib/call.py (and the row masks of cnvlib/cnary.py it calls) for properties C01 and
-C02, second batch (the first batch is call.py).  One generated module per tie; the theorems are in Proofs/Fn<Module>.v and
-restated at the end of Props/C01.v / Props/C02.v.
+"""Loop ties / function-body ties of cnvlib/call.py (and of the row masks of cnvlib/cnary.py and the `call` command's
+argument checks in cnvlib/commands.py) for properties C01 and C02, second batch (the first batch is call.py).  One
+generated module per tie; the theorems are in Proofs/Fn<Module>.v and restated at the end of Props/C01.v / Props/C02.v.
+
+FnCallFinish     do_call, the WHOLE statement `if method != "none": outarr["cn"] = absolutes.round().astype("int");
+                 if "baf" in outarr: <allelic split, NaN masks>` per row = Model/Baf.v dc_finish, the function do_call_row ends
+                 in                                       (C02_source_finish, _finish_model, _finish_threshold; C01_source_finish_clonal)
+FnCallPureRow    absolute_pure: ONE ITERATION of `for i, row in enumerate(cnarr)` = the `absolutes` of call_row on the
+                 no-purity path (call_row_pure)                                               (C01_source_pure_row)
+FnCallClonalRow  absolute_dataframe's `df["absolute"] = df.apply(lambda row: _log2_ratio_to_absolute(...), axis=1)` (the
+                 function applied per row), absolute_clonal's `return df["absolute"]`, do_call's `.clip(lower=0)`: composed
+                 = the `absolutes` / cn / rewritten ratio of call_row on the purity-adjusted path (call_row_purity)
+                                                                      (C01_source_clonal_row, C01_source_dataframe_row)
+FnCallRowClass   cnary.py chr_x_label, chr_y_label, parx_filter, chr_x_filter, pary_filter, chr_y_filter, WHOLE, per row: the
+                 generated labels = x_label / y_label, the generated masks of a row = its row_class; composed with
+                 FnCallRefExpect / FnCall's log2_ratios      (C01_source_labels, _row_class, _row_class_auto, _row_copies, _row_log2)
+FnCallGuards     do_call's first statement `if method not in ("threshold", "clonal", "none"): raise ValueError`: the test
+                 (shape checked with `ast`) = "not one of the three call_method values"      (C01_source_method_guard)
+FnCallCmdGuards  commands._cmd_call: `if args.purity and not 0.0 < args.purity <= 1.0: raise RuntimeError` = not
+                 (valid_purity or 0), and `is_sample_female = verify_sample_sex(...) if args.purity and args.purity < 1.0
+                 else None` = looked up exactly when use_purity answers    (C01_source_purity_guard, C01_source_cmd_sample_sex)
+FnCallExpectRef  absolute_expect / absolute_reference, WHOLE: the fixed flag, the call, the column handed back = snd / fst of
+                 ref_expect whatever the fixed flag       (C01_source_expect_ref_calls, _absolute_expect, _absolute_reference)
+(Proofs/FnCallDoCallRow.v, no module of its own: do_call_row = fn_dispatch followed by fn_finish   C01_source_do_call_row)
+
+Mutations tried on a scratch copy (one line each; KILLED = the named Proofs file no longer compiles, REFUSED = the
+translator refuses the module, which the check reports as a broken tie):
+  FnCallFinish     `absolutes.round().astype("int")` -> `absolutes.astype("int")` KILLED ; `outarr["cn"] - outarr["cn1"]` ->
+                   `outarr["cn1"] - outarr["cn"]` KILLED ; `if method != "none"` -> `!= "clonal"` KILLED ; -> `== "none"` REFUSED
+                   (fragment not found) ; `if "baf" in outarr` -> `not in` REFUSED (`in` only against a literal sequence)
+  FnCallPureRow    `_log2_ratio_to_absolute_pure(row.log2, ref_copies)` -> `(row.log2, ploidy)` KILLED ; the row's
+                   `is_haploid_x_reference` -> `False` KILLED ; `ref_copies * 2**log2_ratio` -> `... + 1` KILLED
+  FnCallClonalRow  lambda arguments `row["reference"], row["expect"]` swapped KILLED ; `.clip(lower=0)` -> `lower=1` KILLED ;
+                   the division by purity dropped KILLED ; absolute_clonal `return df["expect"]` REFUSED (unsupported
+                   expression Subscript: the keyed input is gone) ; `axis=1` -> `axis=0` REFUSED (keyword arguments in a call)
+  FnCallRowClass   `x &= ~self.parx_filter(..)` -> `x &= self.parx_filter(..)` KILLED ; pary_filter `==` -> `!=` KILLED ;
+                   "chrX" / "X" swapped in chr_x_label KILLED ; `self.end <= par2_end` -> `<` (pary_filter) KILLED ;
+                   chr_y_label `.startswith("chr")` -> `("ch")` KILLED (behaviour-preserving on the two possible X labels)
+  FnCallGuards     "none" dropped from the tuple KILLED ; `not in` -> `in` KILLED ; `raise ValueError` replaced by
+                   `method = "threshold"` REFUSED (statement 0 of do_call is not `if T: raise ValueError(..)`)
+  FnCallCmdGuards  `<= 1.0` -> `< 1.0` KILLED ; `args.purity and` dropped from the guard KILLED ; sample-sex condition
+                   `< 1.0` -> `<= 1.0` KILLED ; `and args.purity < 1.0` dropped KILLED
+  FnCallExpectRef  `is_haploid_x_reference = True` -> `False` KILLED ; `df["expect"]` -> `df["reference"]` KILLED ; the two flags
+                   swapped in absolute_reference's call KILLED ; `df["reference"]` -> `df["log2"]` REFUSED (unsupported Subscript)
 """
 _DO_CALL = ['cnarr', 'variants', 'method', 'ploidy', 'purity', 'is_haploid_x_reference', 'is_sample_female',
             'diploid_parx_genome', 'filters', 'thresholds']
@@ -66,7 +107,7 @@ MODULES = {
     # (method "none" / no baf column): init 0 / None / None.
     'FnCallFinish': ('cnvlib/call.py', [
         dict(name='do_call', coq='fn_finish', py_params=_DO_CALL,
-             fragment=dict(first="if method != 'none'", last="if method != 'none'"),
+             fragment=dict(first='if method != ', last='if method != '),
              init=[("outarr['cn']", 'Z', '0'), ("outarr['cn1']", 'OZ', 'None'), ("outarr['cn2']", 'OZ', 'None')],
              params=[('method', 'S'), ('absolutes', 'Q'), ("'baf' in outarr", 'B', 'has_baf'), ("outarr['baf']", 'OQ', 'baf')],
              returns=["outarr['cn']", "outarr['cn1']", "outarr['cn2']"], ret=['Z', 'OZ', 'OZ']),
@@ -146,5 +187,24 @@ MODULES = {
              params=[('args.purity', 'OQ', 'purity'),
                      ('verify_sample_sex(cnarr, args.sample_sex, args.male_reference, args.diploid_parx_genome)', 'OB', 'verified_female')],
              returns=['is_sample_female'], ret='OB'),
+    ]),
+    # absolute_expect / absolute_reference, WHOLE: the flag each of them fixes (`is_haploid_x_reference = True` /
+    # `is_sample_female = True`), the call of get_as_dframe_and_set_reference_and_expect_copies and the column handed back.
+    # The table the callee returns is read per row through its two columns, function-typed inputs keyed
+    # `get_as_dframe_and_set_reference_and_expect_copies['reference']` / `[...]['expect']` (tables and the build are opaque
+    # ids); the theorem instantiates them with FnCallRefExpect's generated column code.
+    'FnCallExpectRef': ('cnvlib/call.py', [
+        dict(name='absolute_expect', coq='fn_absolute_expect',
+             py_params=['cnarr', 'ploidy', 'diploid_parx_genome', 'is_sample_female'],
+             params=[('cnarr', 'Z', 'cnarr_id'), ('ploidy', 'Z'), ('diploid_parx_genome', 'Z', 'build_id'), ('is_sample_female', 'B'),
+                     ("get_as_dframe_and_set_reference_and_expect_copies['reference']", 'F:Z,Z,B,Z,B>Z', 'reference_of'),
+                     ("get_as_dframe_and_set_reference_and_expect_copies['expect']", 'F:Z,Z,B,Z,B>Z', 'expect_of')],
+             ret='Z'),
+        dict(name='absolute_reference', coq='fn_absolute_reference',
+             py_params=['cnarr', 'ploidy', 'diploid_parx_genome', 'is_haploid_x_reference'],
+             params=[('cnarr', 'Z', 'cnarr_id'), ('ploidy', 'Z'), ('diploid_parx_genome', 'Z', 'build_id'), ('is_haploid_x_reference', 'B'),
+                     ("get_as_dframe_and_set_reference_and_expect_copies['reference']", 'F:Z,Z,B,Z,B>Z', 'reference_of'),
+                     ("get_as_dframe_and_set_reference_and_expect_copies['expect']", 'F:Z,Z,B,Z,B>Z', 'expect_of')],
+             ret='Z'),
     ]),
 }
